@@ -12,7 +12,7 @@ m = {"version": 1, "setup_cmd": "./setup.sh",
  "engines": [{"name": "gocv", "path": "/verif/cmd/gocv", "serves_properties": sorted(claims.keys()),
    "kind_free_text": "contract-based deductive verifier for Go written for this task: weakest-precondition style symbolic execution of the real go/ast+go/types syntax of /repo, contracts as //@ comments in /repo/verif_contracts*.go (build tag verif) and /verif/stubs/*.spec, one SMT-LIB2 query per obligation, discharged by z3-new 5.1.0 / cvc5 1.0 / z3 4.8.12"}],
  "checks": [], "not_applicable": [],
- "notes": "See DESIGN.md. Every check rebuilds its verification conditions from /repo's working tree on every run."}
+ "notes": "See DESIGN.md (section 0a: as built). Every check rebuilds its verification conditions from /repo's working tree on every run; nothing is cached. A VIOLATION is a refuted or no longer generated obligation of the ledger of the unchanged tree (baseline/<ID>.json), named by obligation; where a replay template exists the refutation is re-run against the real code (go test -overlay) and the line carries no suffix when it reproduces, otherwise it ends with no-failing-input-found. Obligations at new call sites and units whose contract went stale (renamed or removed names it mentions, a new helper without contract) are UNDECIDED: printed on stderr, listed in the evidence, exit status 0. Open known findings (known_findings.json) print KNOWN-FINDING lines. Thorough mode asks the other solvers to confirm every answer, uses longer time limits and the larger bound for the one bounded clause (C13 bst layout), and re-runs the property's must-fail and no-alarm corpus (selftest/), recording the outcome in the evidence."}
 for p in props:
     pid = p['id']
     if pid in claims:
